@@ -228,6 +228,13 @@ def mpo_case(ctx, idx, rng):
         d = 2
         chains = random_spin_chains(rng, L) if L >= 1 else []
         g = ptn.OpGraph.from_opchains(chains, L, 0)
+        if rng.random() < 0.6:
+            # a consistent graph whose START node carries a non-zero quantum number: all node labels shifted by a constant (only differences enter the
+            # sparsity rule); the MPO must take the labels as they are
+            shift = int(rng.choice([1, -2, 5, -1]))
+            for nd in g.nodes.values():
+                nd.qnum = nd.qnum + shift
+            src = 'charged-chains-shifted-labels'
         opmap = SPIN_OPMAP
         qd = np.array([1, -1])
         want = sum(c.coeff * refs.kron_all([opmap[o] for o in ([0] * c.istart + list(c.oids) + [0] * (L - c.istart - len(c.oids)))]) for c in chains)
